@@ -917,6 +917,15 @@ func (x *Exec) evalCall(env *Env, e *SExpr) Val {
 			tn = e.Args[1].String()
 		}
 		return mathVal(Eq(v.L[0], x.E.typeTagByName(env.pkgPath, tn)))
+	case "typehas":
+		// typehas(v, "text"): the dynamic type of the interface value v is statically known here and
+		// its written form mentions text (for anonymous struct types that cannot be named)
+		v := arg(0)
+		dt := x.E.dynamicType(v)
+		if dt == nil {
+			x.evalFail("typehas: the dynamic type of %s is not known at this point", e.Args[0].String())
+		}
+		return mathVal(BoolC(strings.Contains(dt.String(), e.Args[1].Str)))
 	case "unbox":
 		// unbox(v, "T"): the value of dynamic type T held by the interface value v
 		v := arg(0)
